@@ -400,9 +400,9 @@ class History:
                     nv = self.val(et); data = gen_types.wire_of(et, nv); effect = ('setitem', v, i, nv)
                 if effect[3] is not None and not data: return self.update_prop()    # zero-size element: "empty rest" would be taken
         payload = pack_bits(fields) + data
-        if len(payload) > 127: return self.update_prop()
+        if len(payload) > 255: return self.update_prop()
         if effect[0] == 'slice' and effect[4] and not data: return self.update_prop()
-        self.emit('NestedProperty', struct.pack('<Ibb', eid, 1 if is_slice else 0, len(payload)) + bytes(3) + payload,
+        self.emit('NestedProperty', struct.pack('<IbB', eid, 1 if is_slice else 0, len(payload)) + bytes(3) + payload,
                   'nested-slice' if is_slice else 'nested-set')
         # SPEC effect: ordinary list / dict operations
         if effect[0] == 'setfield': effect[1][effect[2]] = effect[3]
@@ -670,9 +670,9 @@ class SweepHistory(History):
         self.snap_eid = eid; self.spec_snaps = {}; self.pending = []
         def nested(fields, data, is_slice, label):
             payload = pack_bits(fields) + data
-            assert len(payload) <= 127
+            assert len(payload) <= 255
             self.flush_snaps()
-            self.emit('NestedProperty', struct.pack('<Ibb', eid, 1 if is_slice else 0, len(payload)) + bytes(3) + payload, label)
+            self.emit('NestedProperty', struct.pack('<IbB', eid, 1 if is_slice else 0, len(payload)) + bytes(3) + payload, label)
             self.pending.append(len(self.packets) - 1)     # the SPEC effect is applied by the caller right after this call
         root = [(1, 1), (li, bits_required(len(props)))]
         for n in range(0, maxn + 1):
